@@ -335,8 +335,8 @@ mod verif_order {
     }
     harness_one_worker!(concurrent_one_worker_n2, 3, concurrent_bubble_sort_one_worker_contract::<2, 1>());
     harness_one_worker!(concurrent_one_worker_n3, 4, concurrent_bubble_sort_one_worker_contract::<3, 3>());
+    // NOT listed in suite.json: CBMC runs out of memory under the 12 GB cap (see REPORT.md)
     harness_one_worker!(concurrent_one_worker_n4, 7, concurrent_bubble_sort_one_worker_contract::<4, 6>());
-    harness_one_worker!(concurrent_one_worker_n5, 11, concurrent_bubble_sort_one_worker_contract::<5, 10>());
 
     // ---------------------------------------------------------------- self tests (MUST fail)
 
